@@ -294,3 +294,42 @@ Fixpoint history_dom (fx : bool) (v : tval) (ops : list eop) : bool :=
   | [] => true
   | o :: r => op_dom fx v o && history_dom fx (ast_step true v o) r
   end.
+
+(* ================= Node.ReplaceByPath(f, path...) ================= *)
+(* the callback of a ReplaceByPath, as far as the result depends on it: a node built without looking at the argument, the
+   argument itself, an error node *)
+Inductive callback := CbConst (xt : Z) (xb : list Z) | CbId | CbErr.
+
+(* new buffer, or an error with the 'exist' flag (the buffer is untouched on every error) *)
+Inductive rres := ROk (bs : list Z) | RErr (exist : bool).
+
+(* as coded: v := GetByPath(path); error -> (false, v); sub := f(v); error node -> (true, sub); replace(v, sub)
+   (o.t != n.t -> (true, type mismatch)).  The path is not empty (an empty one replaces the node itself by f(self)). *)
+Definition replace_by_path (t : Z) (bs : list Z) (p : list pstep) (cb : callback) : rres :=
+  match walk t bs 0 p with
+  | WFound t' s e =>
+    match cb with
+    | CbErr => RErr true
+    | CbId => ROk (replace bs s e (bfirstn (e - s) (bskipn s bs)))
+    | CbConst xt xb => if t' =? xt then ROk (replace bs s e xb) else RErr true
+    end
+  | _ => RErr false
+  end.
+
+(* the AST-level meaning: an existing element is set to what the callback makes of it; anything else is an error that
+   leaves the value unchanged *)
+Inductive acallback := ACConst (x : tval) | ACId | ACErr.
+Definition ast_replace (p : list pstep) (cb : acallback) (v : tval) : option tval * bool :=   (* new value or error, exist *)
+  match lookup v 0 p with
+  | LFound sub _ =>
+    match cb with
+    | ACErr => (None, true)
+    | ACId => (match ast_set true p sub v with Some (v', _) => Some v' | None => None end, true)
+    | ACConst x => (match ast_set true p x v with Some (v', _) => Some v' | None => None end, true)
+    end
+  | _ => (None, false)
+  end.
+Definition cb_bytes (cb : acallback) : callback :=
+  match cb with ACConst x => CbConst (type_of x) (encode x) | ACId => CbId | ACErr => CbErr end.
+Definition rres_of (r : option tval * bool) : rres :=
+  match r with (Some v', _) => ROk (encode v') | (None, ex) => RErr ex end.
